@@ -153,9 +153,11 @@ _VAL = {
     "bool": st.booleans(),
     "empty": st.just(""),
     "list": st.lists(_TEXT, min_size=2, max_size=3, unique=True),
+    # lists of reals, with zero allowed in any position (a falsy first element must not be dropped on retrieval)
+    "list_float": st.lists(st.sampled_from([0.0, 2.5, 7.25, -1.5, 3.0]), min_size=2, max_size=3, unique=True),
 }
-_MAT_KINDS = ["text"] * 8 + ["float"] * 8 + ["int"] * 2 + ["numtext", "empty", "list"]
-_ADS_KINDS = ["text"] * 8 + ["float"] * 8 + ["int"] * 2 + ["numtext", "empty", "list"]
+_MAT_KINDS = ["text"] * 8 + ["float"] * 8 + ["int"] * 2 + ["numtext", "empty", "list", "list_float", "list_float"]
+_ADS_KINDS = ["text"] * 8 + ["float"] * 8 + ["int"] * 2 + ["numtext", "empty", "list", "list_float", "list_float"]
 _ISO_KINDS = ["text"] * 8 + ["float"] * 6 + ["bool"] * 2 + ["int", "numtext", "booltext", "empty"]
 
 
